@@ -33,6 +33,8 @@ STUBS = ["sqllineage.runner.split / SqlFluffLineageAnalyzer._list_specific_state
 ASSUMPTIONS = ["warnings are observed through warnings.catch_warnings(record=True)"]
 
 EDGE = {
+    "scalar_over_constant_derived": ("ansi", ["SELECT CASE WHEN (SELECT ca FROM (SELECT 1 AS ca) sq) > 1 THEN 1 END AS cc FROM zqt1"]),
+    "scalar_over_constant_derived_insert": ("ansi", ["INSERT INTO zqt2 SELECT coalesce((SELECT max(ca) FROM (SELECT 1 AS ca) sq), cb) AS cc FROM zqt1"]),
     # more than one write target (the library's own generic error), also where the inner writer sits in a derived table / a CTE
     "two_write_targets/postgres": ("postgres", ["INSERT INTO zqt1 SELECT ca INTO zqt2 FROM zqt3"]),
     "two_write_targets/tsql": ("tsql", ["INSERT INTO zqt1 SELECT ca INTO zqt2 FROM zqt3"]),
